@@ -289,7 +289,7 @@ class Formatter(FormatterInterface):
     def _(self, oper: L.Neg | L.Not) -> str:
         """Format a unary operation."""
         arg = self(oper.arg)
-        if oper.arg.precedence >= oper.precedence:
+        if oper.arg.precedence >= oper.precedence or arg.startswith(oper.op):
             return f"{oper.op}({arg})"
         return f"{oper.op}{arg}"
 
